@@ -123,6 +123,9 @@ def _plain_constant(v: ast.expr) -> bool:
         return isinstance(v.value, (int, float, str)) and not isinstance(v.value, bool)
     if isinstance(v, ast.Tuple):
         return bool(v.elts) and all(_plain_constant(e) for e in v.elts)
+    if isinstance(v, ast.BinOp) and isinstance(v.op, (ast.Pow, ast.Mult, ast.Add, ast.Sub, ast.LShift)):
+        # 2**10, 60 * 60: arithmetic over integer literals
+        return all(isinstance(x, ast.Constant) and isinstance(x.value, int) and not isinstance(x.value, bool) for x in (v.left, v.right))
     return False
 
 
